@@ -119,6 +119,24 @@ Proof.
     + eapply Permutation_in; [exact Hp2|exact Hb].
 Qed.
 
+(* duplicates: neither the validator nor the signer removes RRs with equal
+   RDATA (RFC 4034 6.3 allows treating them as a protocol error); every record
+   handed in is encoded *)
+Lemma flat_map_length_perm {A} (f : A -> bytes) l1 l2 :
+  Permutation l1 l2 -> length (flat_map f l1) = length (flat_map f l2).
+Proof.
+  induction 1 as [|x l l' _ IH|x y l|l l' l'' _ IH1 _ IH2]; cbn [flat_map]; rewrite ?app_length; lia.
+Qed.
+
+Lemma signed_data_keeps_every_record s r recs :
+  length (signed_data s (r :: recs)) = (length (signed_data s recs) + length (rfc_rr s r))%nat.
+Proof.
+  rewrite !signed_data_closed, !app_length. unfold sort_rr.
+  rewrite (flat_map_length_perm (rfc_rr s) _ _ (sort_by_perm _ r_rdata (r :: recs))).
+  rewrite (flat_map_length_perm (rfc_rr s) _ _ (sort_by_perm _ r_rdata recs)).
+  cbn [flat_map]. rewrite app_length. lia.
+Qed.
+
 (* ---- the labels field ------------------------------------------------------------ *)
 Lemma is_wildcard_spec l : is_wildcard l = true <-> l = star.
 Proof.
